@@ -575,6 +575,18 @@ Definition mk_abs (a : expr) : expr :=
        | RealV _ _ | CplxV _ _ _ _ | RatV _ _ => ffold 4 a a
        | _ => Abs a
        end.
+(* with the repair of Abs.__init__ (no second initialisation) Abs(Conj x) really becomes Abs(x) *)
+Fixpoint mk_abs_fixed (a : expr) : expr :=
+  match a with
+  | Zero _ _ => a
+  | Abs _ => a
+  | Conj x => mk_abs_fixed x
+  | IntV z => mk_int (Z.abs z)
+  | RealV _ _ | CplxV _ _ _ _ | RatV _ _ => ffold 4 a a
+  | _ => Abs a
+  end.
+Definition mk_abs_sel (fx_abs : bool) (a : expr) : expr := if fx_abs then mk_abs_fixed a else mk_abs a.
+
 Definition mk_conj (a : expr) : expr :=
   if is_abs a || is_real a || is_imag a || is_zero a then a
   else if is_conj a then arg1 a
@@ -634,6 +646,16 @@ Theorem C05_abs_sound a :
 Proof.
   intros [CC [CA [CR [CI [AA [IR [II [IA [A0 [C0 [R0 [I0 [AZ [CZ [RZ IZ]]]]]]]]]]]]]]] FP.
   unfold mk_abs. unary_cases a; unary_tac FP ltac:(rewrite ?A0, ?AZ, ?AA).
+Qed.
+
+Theorem C05_abs_fixed_sound a :
+  cplx_laws -> (forall x : A, kabs (kconj x) = kabs x) -> fp_unary 4 kabs ->
+  shape (mk_abs_fixed a) = shape (Abs a) /\ fidx (mk_abs_fixed a) = fidx (Abs a) /\
+  forall s rho c, DEN s rho (mk_abs_fixed a) c = DEN s rho (Abs a) c.
+Proof.
+  intros [CC [CA [CR [CI [AA [IR [II [IA [A0 [C0 [R0 [I0 [AZ [CZ [RZ IZ]]]]]]]]]]]]]]] AC FP.
+  induction a; cbn [mk_abs_fixed shape fidx]; try unary_tac FP ltac:(rewrite ?A0, ?AZ, ?AA).
+  destruct IHa as [S1 [F1 V]]. repeat split; auto. intros. rewrite V. cbn [den]. rewrite AC. reflexivity.
 Qed.
 
 Theorem C05_conj_sound a :
@@ -1017,6 +1039,12 @@ End Index.
 Section Exec.
 Variable le : expr -> expr -> bool.
 Variable ffold : nat -> expr -> expr -> expr.
+(* which of the repairs of the known findings the modelled tree contains (the check detects this by
+   probing the implementation; the theorems of Props/C05_rec.v hold for every value of the flags):
+   fx_is: IndexSum._simplify_indexed refuses a multiindex that contains the summation index;
+   fx_ct: ComponentTensor._simplify_indexed uses rep.get(kk[0]) instead of rep[kk[0]];
+   fx_lt: ListTensor.__new__ requires each row to bind exactly its trailing indices *)
+Variables fx_is fx_ct fx_lt : bool.
 
 Fixpoint mk_index_sum (fuel : nat) (a : expr) (i d : nat) : option expr :=
   match fuel with
@@ -1055,10 +1083,11 @@ Fixpoint mk_indexed (fuel : nat) (a : expr) (mi : list idx) : option expr :=
           | _, _ => None
           end
       | IndexSum x i d =>
-          match mk_indexed fuel' x mi with
-          | Some x' => mk_index_sum fuel' x' i d
-          | None => None
-          end
+          if fx_is && mi_has i mi then Some (Indexed a mi)
+          else match mk_indexed fuel' x mi with
+               | Some x' => mk_index_sum fuel' x' i d
+               | None => None
+               end
       | ListTensor es =>
           match m0 with
           | Fixed k => match nth_error es k with
@@ -1076,7 +1105,7 @@ Fixpoint mk_indexed (fuel : nat) (a : expr) (mi : list idx) : option expr :=
                   match kx with
                   | Free k =>
                       match lookup k jj mi None with
-                      | None => None                                   (* KeyError: rep[kk[0]] *)
+                      | None => if fx_ct then Some (B, jj, mi) else None   (* KeyError: rep[kk[0]] *)
                       | Some (Fixed n) =>
                           match nth_error es n with
                           | Some sub =>
@@ -1086,7 +1115,7 @@ Fixpoint mk_indexed (fuel : nat) (a : expr) (mi : list idx) : option expr :=
                           end
                       | Some (Free _) => Some (B, jj, mi)
                       end
-                  | Fixed _ => None
+                  | Fixed _ => if fx_ct then Some (B, jj, mi) else None
                   end
               | _ => Some (B, jj, mi)
               end in
@@ -1149,6 +1178,20 @@ Definition lt_shortcut_indexed (es : list expr) : option expr :=
   | None => None
   end.
 
+Definition free_ids (mi : list idx) : list nat :=
+  flat_map (fun x => match x with Free j => [j] | Fixed _ => [] end) mi.
+Fixpoint nodupb (l : list nat) : bool :=
+  match l with [] => true | x :: t => negb (mem x t) && nodupb t end.
+(* the guard added by the repair: the row binds exactly its trailing indices, in order, each once, and
+   none of them is free in the indexed tensor *)
+Definition lt_row_exact (v e : expr) : bool :=
+  match e with
+  | ComponentTensor (Indexed _ (_ :: rest)) jj =>
+      (if mi_eq_dec rest (map Free (ids jj)) then true else false) && nodupb (free_ids rest) &&
+      forallb (fun j => negb (mem j (ids (fidx v)))) (free_ids rest)
+  | _ => false
+  end.
+
 Definition lt_shortcut_ct (es : list expr) : option expr :=
   match same_base ct_base_of es with
   | Some v =>
@@ -1156,7 +1199,8 @@ Definition lt_shortcut_ct (es : list expr) : option expr :=
          forallb (fun p => match ct_base_of (snd p) with
                            | Some (_, Fixed m :: rest) =>
                                Nat.eqb m (fst p) &&
-                               forallb (fun x => match x with Free _ => true | Fixed _ => false end) rest
+                               forallb (fun x => match x with Free _ => true | Fixed _ => false end) rest &&
+                               (negb fx_lt || lt_row_exact v (snd p))
                            | _ => false end) (combine (seq 0 (length es)) es)
       then Some v else None
   | None => None
@@ -1247,6 +1291,7 @@ Print Assumptions C05_product_sound.
 Print Assumptions C05_division_sound.
 Print Assumptions C05_power_sound.
 Print Assumptions C05_abs_sound.
+Print Assumptions C05_abs_fixed_sound.
 Print Assumptions C05_conj_sound.
 Print Assumptions C05_real_sound.
 Print Assumptions C05_imag_sound.
